@@ -389,6 +389,15 @@ func checkC05(R *Run) {
 					}
 				}
 				if atom, val, ok := P.atomOf(Fact{V: c, Kind: "truth", Holds: true}); ok && val {
+					// a context test whose outcome is combined in a bool expression before it is branched on
+					if refs := c.Referrers(); refs != nil {
+						for _, r := range *refs {
+							switch r.(type) {
+							case *ssa.Phi, *ssa.If, *ssa.UnOp, *ssa.BinOp:
+								atomsSeen[atom] = true
+							}
+						}
+					}
 					if want, has := req[atom]; has {
 						if want {
 							seed[c] = 2
